@@ -21,6 +21,7 @@ import (
 
 	"github.com/sirupsen/logrus"
 
+	"hop.computer/hop/certs"
 	"hop.computer/hop/keys"
 	"hop.computer/hop/transport"
 	"verif/harness/hopkit"
@@ -251,6 +252,19 @@ func replayOnce(idx int, b *beh, seed int64) (res result) {
 			}
 		}
 		pol := pki.Policy(sc.Pol, "", append(auth, rev...)...)
+		if idx%3 == 1 {
+			// concretisation variant: the same policy as hopd derives it - configuration file on disk, the real
+			// loader, hopserver.NewHopServer (same role, same facts)
+			fp, err := pki.PolicyViaConfigFile(sc.Pol, idx/3, append(auth, rev...)...)
+			if err != nil {
+				panic("policy via configuration file: " + err.Error())
+			}
+			pol = fp
+		}
+		if idx%4 >= 2 {
+			// concretisation variant: an additional verification callback that has no objection
+			pol.AddVerifyCallback = noObjection
+		}
 		if pol.AuthKeys != nil {
 			for _, k := range rev { // authorised earlier, removed since
 				pol.AuthKeys.RemoveKey(k)
@@ -284,6 +298,9 @@ func replayOnce(idx int, b *beh, seed int64) (res result) {
 	for i := 1; i <= n; i++ {
 		cc := b.Ccfg[i-1]
 		opt := hopkit.CliOpt{Ident: holder(b, cc.Cert, cc.Key), Verify: pki.Policy(cc.Pol, dnsOf(cc.Name))}
+		if idx%4 >= 2 {
+			opt.Verify.AddVerifyCallback = noObjection
+		}
 		if b.Mode[i-1] == "hid" {
 			opt.ServerKEM = &kemFor(b.Scfg[cc.Skem].Kem).Public
 		}
@@ -521,6 +538,9 @@ func replayOnce(idx int, b *beh, seed int64) (res result) {
 	}
 	return res
 }
+
+// noObjection is an additional verification callback that accepts every certificate it is shown.
+func noObjection(*certs.Certificate) error { return nil }
 
 func main() {
 	logrus.SetOutput(io.Discard)
